@@ -5,6 +5,7 @@ import (
 	"strings"
 	"testing"
 
+	ctok "github.com/pip-services3-gox/pip-services3-expressions-gox/calculator/tokenizers"
 	rio "github.com/pip-services3-gox/pip-services3-expressions-gox/io"
 	"github.com/pip-services3-gox/pip-services3-expressions-gox/tokenizers"
 	"github.com/pip-services3-gox/pip-services3-expressions-gox/tokenizers/generic"
@@ -15,8 +16,19 @@ import (
 // C16 — symbol tables return the longest registered symbol with its own type.
 
 type c16Case struct {
-	Symbols []string `json:"symbols"` // registration order; symbol i gets token type 100+i
+	Symbols []string `json:"symbols"` // registration order; symbol i gets token type 100+i unless Types says otherwise
 	Probes  []string `json:"probes"`
+	// State: "" / "generic" = a fresh GenericSymbolState; "expression" = the expression tokenizer's symbol state, which
+	// starts with <= >= <> != >> << registered as Symbol
+	State string `json:"state,omitempty"`
+	Types []int  `json:"types,omitempty"` // token type of symbol i (any int: small, large, with high bits, negative)
+}
+
+func (c c16Case) typeOf(i int) int {
+	if i < len(c.Types) {
+		return c.Types[i]
+	}
+	return 100 + i
 }
 
 func c16Expect(registered map[string]int, input []rune) (string, int) {
@@ -36,8 +48,14 @@ func c16Expect(registered map[string]int, input []rune) (string, int) {
 func checkC16(c c16Case) *evid.Fail {
 	var res *evid.Fail
 	if g := guard(func() {
-		st := generic.NewGenericSymbolState()
+		var st tokenizers.ISymbolState = generic.NewGenericSymbolState()
 		registered := map[string]int{}
+		if c.State == "expression" {
+			st = ctok.NewExpressionSymbolState()
+			for _, s := range []string{"<=", ">=", "<>", "!=", ">>", "<<"} {
+				registered[s] = tokenizers.Symbol
+			}
+		}
 		probe := func(step int, p string) bool {
 			rs := []rune(p)
 			if len(rs) == 0 {
@@ -78,8 +96,8 @@ func checkC16(c c16Case) *evid.Fail {
 			return true
 		}
 		for i, s := range c.Symbols {
-			st.Add(s, 100+i)
-			registered[s] = 100 + i
+			st.Add(s, c.typeOf(i))
+			registered[s] = c.typeOf(i)
 			// all probes, then again in reverse order, on the same state instance
 			for _, p := range c.Probes {
 				if !probe(i+1, p) {
@@ -192,7 +210,7 @@ func TestC16_Exhaustive(t *testing.T) {
 			}
 		}
 		for _, o := range orders {
-			c := c16Case{o, probes}
+			c := c16Case{Symbols: o, Probes: probes}
 			rec.Case(strings.Join(o, ","), c16NonTrivial(o), func() interface{} { return map[string]interface{}{"symbols": o, "probes": len(probes)} }, fmt.Sprintf("size:%d", len(o)))
 			if f := checkC16(c); f != nil {
 				rec.Fail(f, c)
@@ -263,8 +281,19 @@ func TestC16_Rapid(t *testing.T) {
 			}
 			probes = append(probes, p)
 		}
-		c := c16Case{syms, probes}
-		rec.Case(strings.Join(syms, ","), c16NonTrivial(syms), func() interface{} { return c })
+		c := c16Case{Symbols: syms, Probes: probes}
+		if rapid.IntRange(0, 2).Draw(rt, "exprstate") == 0 {
+			c.State = "expression"
+			c.Probes = append(c.Probes, "<=x", "<>", "!=!", ">>>", "<<=", "<", "!")
+		}
+		if rapid.Bool().Draw(rt, "types") {
+			// token types are plain ints chosen by the caller: small ones, library codes, high bits, negatives
+			pool := []int{1, 2, 7, 9, 13, 14, 100, 255, 256, 0x0fff, 0x1000, 0x1001, 0x1fff, 0x2000, 0x8000, 0xffff, 0x10000, 1 << 20, 1<<31 - 1, 1 << 32, 1 << 40, 1<<62 + 5, -1, -2, -4096, -1 << 31}
+			for range syms {
+				c.Types = append(c.Types, rapid.SampledFrom(pool).Draw(rt, "type"))
+			}
+		}
+		rec.Case(jsonStr(c), c16NonTrivial(syms), func() interface{} { return c }, "state:"+c.State)
 		if f := checkC16(c); f != nil {
 			if rec.Fail(f, c) {
 				rt.Fatalf("%v", f)
